@@ -188,6 +188,30 @@ func genC20(out, tier string, rng *rand.Rand) {
 		pc := cc.pseudo()
 		js, _ := json.Marshal(cc)
 		sink.AddOracleOnly(pc, string(js), js, true)
+		// DeleteTable while requests that have already looked the table up are parked: a scan at its
+		// hand-over, a write before it takes the table lock, a read-modify-write likewise.  Whatever they
+		// answer, nothing may panic or hang (oracle only: the sequential model has no opinion on requests
+		// that outlive their table)
+		del := Call{Req: Req{Kind: "delete", Table: concTable}, Now: 1}
+		wr := Call{Req: Req{Kind: "mutate", Table: concTable, Key: scanKey(3), Muts: []Mutation{{Kind: "set", Fam: "cf", Q: []byte("late"), Ts: 1000, V: []byte("w")}}}, Now: 5000}
+		rmw := Call{Req: Req{Kind: "rmw", Table: concTable, Key: scanKey(4), Rules: []Rule{{Kind: "append", Fam: "cf", Q: []byte("late"), V: []byte("+")}}}, Now: 5000}
+		for _, sc := range []struct {
+			threads [][]Call
+			sched   []int
+			tag     string
+		}{
+			{[][]Call{{scan}, {del}}, []int{0, 0, 1, 0, 0, 0}, "delete-table-under-scan"},
+			{[][]Call{{wr}, {del}}, []int{0, 1, 0, 0, 0}, "delete-table-before-write-lock"},
+			{[][]Call{{rmw}, {del}, {scan}}, []int{0, 2, 2, 1, 0, 2, 0, 2}, "delete-table-under-rmw-and-scan"},
+		} {
+			cd := runConc(en, setup, sc.threads, sc.sched, nil, nil, sc.tag)
+			if cd == nil {
+				continue
+			}
+			pd := cd.pseudo()
+			jd, _ := json.Marshal(cd)
+			sink.AddOracleOnly(pd, string(jd), jd, true)
+		}
 	}
 	// (c) concurrent mixes under the race detector
 	if bin := os.Getenv("VERIF_RACE_BIN_BT"); bin != "" {
